@@ -66,9 +66,9 @@ singleton descriptors, and every constructor behaviour: if the run-time phases o
 constructor of every (non-instance) singleton registration has succeeded exactly once — also when it
 yields several services (multiple returns, result object, aliases: all descriptors of a registration
 share the constructor id) — and no constructor of singleton registrations has succeeded twice.
-Hypothesis `NoNilOutputs`: constructors fill every field of their result objects (with a nil field Build
-fails for a singleton registration: the model's `markAbsent`, repaired defect D15). -/
-theorem build_runs_each_singleton_ctor_exactly_once (beh : Beh) (hnil : NoNilOutputs beh) (descs : List Desc) (order : List Nat)
+(A result-object field left nil makes Build fail for a singleton registration — the model's `markAbsent`,
+repaired defect D15 — so the statement needs no hypothesis about nil fields.) -/
+theorem build_runs_each_singleton_ctor_exactly_once (beh : Beh) (descs : List Desc) (order : List Nat)
     (wf : WF descs) (rw' : RegWF descs) (st : State) (h : buildRuntime beh descs order = (st, .ok ())) :
     (∀ c, SingCtor descs c → ctorCount st.log c ≤ 1) ∧
     (∀ d ∈ descs, d.life = .singleton → (∀ v, d.kind ≠ .inst v) → d.id ∈ order → ctorCount st.log d.ctor = 1) := by
@@ -79,8 +79,8 @@ theorem build_runs_each_singleton_ctor_exactly_once (beh : Beh) (hnil : NoNilOut
   have inv0 : BuildInv descs (allocScope { descs := descs, next := firstFresh descs } none 0) :=
     ⟨rfl, by intro c _; simp [allocScope], by intro c _ h; simp [allocScope] at h,
      by intro d _ _ _ h; simp [allocScope, lookup] at h⟩
-  have inv := createSingletons_inv beh hnil descs wf rw' order _ inv0
-  have hstored := createSingletons_ok_stored beh hnil descs wf rw' order _ inv0
+  have inv := createSingletons_inv beh descs wf rw' order _ inv0
+  have hstored := createSingletons_ok_stored beh descs wf rw' order _ inv0
   generalize createSingletons beh (allocScope { descs := descs, next := firstFresh descs } none 0) order = r at h inv hstored
   obtain ⟨st2, res⟩ := r
   cases res with
